@@ -136,7 +136,47 @@ func (h *Harness) sig(v *simrt.Violation) string {
 	return v.Oracle
 }
 
+// progress beacon: the driver tells a worker that computes from one that is stuck inside a single
+// run (a loop in kit code that never reaches a scheduling point) by watching this counter move.
+var (
+	progressFile *os.File
+	progressN    uint64
+	curRun       uint64
+)
+
+func beacon() {
+	if progressFile == nil {
+		p := os.Getenv("VERIF_PROGRESS")
+		if p == "" {
+			return
+		}
+		f, err := os.OpenFile(p, os.O_CREATE|os.O_WRONLY, 0o644)
+		if err != nil {
+			return
+		}
+		progressFile = f
+	}
+	progressN++
+	progressFile.WriteAt([]byte(fmt.Sprintf("%020d %020d\n", progressN, curRun)), 0)
+}
+
+// logSource writes every decision to a file as it is drawn, so that the decisions of a run that
+// never returns are still on disk.
+type logSource struct {
+	simrt.Source
+	f *os.File
+}
+
+func (l *logSource) Choose(n int, kind string) int {
+	v := l.Source.Choose(n, kind)
+	if n > 1 {
+		fmt.Fprintf(l.f, "%s\t%d\t%d\n", kind, n, v)
+	}
+	return v
+}
+
 func (h *Harness) runOnce(t *testing.T, src simrt.Source, tier string, record bool) simrt.Result {
+	beacon()
 	if h.SeedCrypto {
 		cryptotest.SetGlobalRandom(t, uint64(src.Choose(1<<30, "cryptoseed")))
 	}
@@ -251,6 +291,37 @@ func Main(t *testing.T, h Harness) {
 		wo.Complete = true
 		write()
 		return
+	case "probe":
+		// one run of a batch again, with its decisions logged as they are drawn: the driver uses this to
+		// turn "a worker stopped making progress in run i" into a replayable tape (or into nothing, if
+		// the run completes here)
+		seed, i := envU("VERIF_SEED", 1), envU("VERIF_RUN", 0)
+		var src simrt.Source = simrt.NewRNG(simrt.SplitMix(seed, i))
+		if rp := os.Getenv("VERIF_REPLAY"); rp != "" {
+			var r Replay
+			data, err := os.ReadFile(rp)
+			if err != nil || json.Unmarshal(data, &r) != nil {
+				t.Fatalf("cannot read replay file: %v", err)
+			}
+			src = simrt.NewTape(r.Tape)
+		}
+		if lf := os.Getenv("VERIF_TAPELOG"); lf != "" {
+			f, err := os.Create(lf)
+			if err != nil {
+				t.Fatalf("tape log: %v", err)
+			}
+			src = &logSource{Source: src, f: f}
+		}
+		curRun = i
+		res := h.runOnce(t, src, tier, false)
+		if res.Violation != nil {
+			wo.ReplayMsg = "the run completed with oracle " + res.Violation.Oracle
+		} else {
+			wo.ReplayMsg = "the run completed"
+		}
+		wo.Complete = true
+		write()
+		return
 	case "merge":
 		// count distinct 64-bit hashes over the workers' sorted hash files (k-way merge)
 		files := strings.Split(os.Getenv("VERIF_MERGE"), ",")
@@ -306,6 +377,7 @@ func Main(t *testing.T, h Harness) {
 			break
 		}
 		rs := simrt.SplitMix(seed, i)
+		curRun = i
 		res := h.runOnce(t, simrt.NewRNG(rs), tier, false)
 		wo.Runs++
 		wo.To = i + 1
